@@ -523,6 +523,60 @@ theorem run_wf (ops : List Op) : ∀ (w : World), Wf w → (∀ op ∈ ops, op.a
     obtain ⟨w2, h2, hw2⟩ := ih w1 hw1 (fun o ho => hall o (by simp [ho]))
     exact ⟨w2, by simp [run, h1, h2], hw2⟩
 
+/-- Liveness is monotone: a dead block is never revived (block ids are not reused), so together
+with "freeing a dead block is a fault" every block is freed at most once. -/
+theorem step_dead_stays_dead (w : World) (hw : Wf w) (op : Op) (ha : op.admissible = true)
+    (w' : World) (hs : step w op = .ok w') (b : Nat) (blk : Block)
+    (hb : w.heap[b]? = some blk) (hd : blk.live = false) :
+    ∃ blk', w'.heap[b]? = some blk' ∧ blk'.live = false := by
+  cases op with
+  | construct l n =>
+    simp only [step, Except.ok.injEq] at hs
+    subst hs
+    exact ⟨blk, getElem?_append_some hb, hd⟩
+  | moveStruct i to =>
+    simp only [step, Except.ok.injEq] at hs
+    subst hs
+    unfold moveInst
+    cases hi : w.insts[i]? with
+    | none => exact ⟨blk, hb, hd⟩
+    | some inst =>
+      dsimp only
+      by_cases hal : inst.alive = false
+      · rw [if_pos hal]; exact ⟨blk, hb, hd⟩
+      · rw [if_neg hal, safe_not_inline (hw.insts i inst hi).safe]
+        exact ⟨blk, hb, hd⟩
+  | next i => simp only [step, useInst_ok w hw i, Except.ok.injEq] at hs; subst hs; exact ⟨blk, hb, hd⟩
+  | nth i k => simp only [step, useInst_ok w hw i, Except.ok.injEq] at hs; subst hs; exact ⟨blk, hb, hd⟩
+  | len i => simp only [step, useInst_ok w hw i, Except.ok.injEq] at hs; subst hs; exact ⟨blk, hb, hd⟩
+  | dropStruct i =>
+    simp only [step] at hs
+    unfold dropInst at hs
+    cases hi : w.insts[i]? with
+    | none => rw [hi] at hs; simp only [Except.ok.injEq] at hs; subst hs; exact ⟨blk, hb, hd⟩
+    | some inst =>
+      rw [hi] at hs
+      dsimp only at hs
+      by_cases hal : inst.alive = false
+      · rw [if_pos hal] at hs; simp only [Except.ok.injEq] at hs; subst hs; exact ⟨blk, hb, hd⟩
+      · rw [if_neg hal] at hs
+        have hal' : inst.alive = true := by simpa using hal
+        obtain ⟨h', hdf, hsame, hkill⟩ := dropFields_spec (hw.insts i inst hi) hal'
+        rw [hdf] at hs
+        simp only [Except.ok.injEq] at hs
+        subst hs
+        by_cases hbi : b ∈ inst.blocks
+        · obtain ⟨blk0, _, _, h3⟩ := hkill b hbi
+          exact ⟨dead blk0, h3, rfl⟩
+        · exact ⟨blk, by rw [hsame b hbi]; exact hb, hd⟩
+  | mutateOwner i => simp [Op.admissible] at ha
+  | cloneBitwise i => simp [Op.admissible] at ha
+
+theorem free_dead_is_fault {h : List Block} {b : Nat} {blk : Block} (hb : h[b]? = some blk)
+    (hd : blk.live = false) : free h b = .error .doubleFree := by
+  unfold free
+  simp [hb, hd]
+
 /-- Pointers dereferenced by an operation are valid in a well-formed world. -/
 theorem derefs_valid (w : World) (hw : Wf w) (op : Op) : ∀ p ∈ derefs w op, validPtr w.heap p := by
   intro p hp
